@@ -500,6 +500,40 @@ func init() {
 		}})
 }
 
+// packing of k separate one-triangle charts of similar area into square, tall, wide and offset rectangles: every
+// node shape of the quad tree (1, 2, 3, 4 charts and deeper) in every aspect ratio
+func init() {
+	targets := []struct {
+		name   string
+		lo, hi model2d.Coord
+	}{
+		{"unit", model2d.XY(0, 0), model2d.XY(1, 1)},
+		{"tall", model2d.XY(0, 0), model2d.XY(1, 2)},
+		{"wide", model2d.XY(0, 0), model2d.XY(2, 1)},
+		{"offset-tall", model2d.XY(0.5, 0), model2d.XY(1, 1)},
+		{"offset-wide", model2d.XY(-1, 0.25), model2d.XY(1, 0.75)},
+	}
+	for _, tg := range targets {
+		for k := 1; k <= 9; k++ {
+			tg, k := tg, k
+			register(scenario{name: fmt.Sprintf("atlas:PackMeshUVMaps/%d-charts/%s", k, tg.name), procs: 1, prop: "C18", about: "packing of k charts into a rectangle of a given aspect ratio",
+				want: func() string { return "ok" },
+				body: func() string {
+					m := model3d.NewMesh()
+					var maps []model3d.MeshUVMap
+					for i := 0; i < k; i++ {
+						o := model3d.XYZ(float64(i)*3, float64(i%3), float64(i))
+						t := &model3d.Triangle{o, o.Add(model3d.XYZ(1+0.05*float64(i), 0, 0.5)), o.Add(model3d.XYZ(0.2, 1+0.03*float64(i), 0))}
+						m.Add(t)
+						maps = append(maps, model3d.MeshUVMap{t: [3]model2d.Coord{model2d.XY(0, 0), model2d.XY(1+0.02*float64(i), 0), model2d.XY(0, 1+0.01*float64(i))}})
+					}
+					packed := model3d.PackMeshUVMaps(tg.lo, tg.hi, 1.0/64, maps)
+					return atlasProblemIn(m, packed, true, tg.lo, tg.hi)
+				}})
+		}
+	}
+}
+
 func triOverlap2(a, b [3]model2d.Coord) bool {
 	// interiors intersect? separating axis test with a tolerance
 	axes := func(t [3]model2d.Coord) []model2d.Coord {
@@ -554,6 +588,11 @@ func closestOnTri2(p model2d.Coord, t [3]model2d.Coord) model2d.Coord {
 }
 
 func atlasProblem(m *model3d.Mesh, uvm model3d.MeshUVMap, gutters bool) string {
+	return atlasProblemIn(m, uvm, gutters, model2d.XY(0, 0), model2d.XY(1, 1))
+}
+
+// atlasProblemIn judges an atlas that was packed into the rectangle lo..hi.
+func atlasProblemIn(m *model3d.Mesh, uvm model3d.MeshUVMap, gutters bool, lo, hi model2d.Coord) string {
 	if len(uvm) != m.NumTriangles() {
 		return fmt.Sprintf("VIOLATION atlas: %d triangles in the UV map, %d in the mesh", len(uvm), m.NumTriangles())
 	}
@@ -564,8 +603,8 @@ func atlasProblem(m *model3d.Mesh, uvm model3d.MeshUVMap, gutters bool) string {
 			return fmt.Sprintf("VIOLATION atlas: triangle %v has no UV coordinates", *t)
 		}
 		for _, c := range uv {
-			if math.IsNaN(c.X+c.Y) || c.X < -1e-9 || c.Y < -1e-9 || c.X > 1+1e-9 || c.Y > 1+1e-9 {
-				return fmt.Sprintf("VIOLATION unit-square: UV coordinate %v of triangle %v is outside the unit square", c, *t)
+			if math.IsNaN(c.X+c.Y) || c.X < lo.X-1e-9 || c.Y < lo.Y-1e-9 || c.X > hi.X+1e-9 || c.Y > hi.Y+1e-9 {
+				return fmt.Sprintf("VIOLATION unit-square: UV coordinate %v of triangle %v is outside the target rectangle %v..%v", c, *t, lo, hi)
 			}
 		}
 	}
@@ -611,7 +650,7 @@ func atlasProblem(m *model3d.Mesh, uvm model3d.MeshUVMap, gutters bool) string {
 		// points outside every triangle: the nearest point of the triangulation is used (documented)
 		for x := -0.1; x <= 1.1; x += 0.05 {
 			for y := -0.1; y <= 1.1; y += 0.05 {
-				q := model2d.XY(x+0.0037, y-0.0021)
+				q := lo.Add(model2d.XY((x+0.0037)*(hi.X-lo.X), (y-0.0021)*(hi.Y-lo.Y)))
 				best := math.Inf(1)
 				for _, t := range tris {
 					if d := closestOnTri2(q, uvm[t]).Dist(q); d < best {
